@@ -233,10 +233,73 @@ def _shared_mutable_tables(tree):
     return out
 
 
+def shared_deferred(fn):
+    """P6: a Deferred that the function files in a container of `self`
+    AND returns is handed out a second time when a later call returns what
+    it finds in that container (`d = self._inflight.get(k); if d: return
+    d`).  Two callers then chain their callbacks on ONE Deferred: the second
+    caller's callbacks receive the first caller's transformed result."""
+    nodes = list(_own_nodes(fn))
+    deferredish = set()
+    for n in nodes:
+        if isinstance(n, ast.Call) and isinstance(n.func, ast.Attribute) \
+                and n.func.attr in ('addCallback', 'addCallbacks',
+                                    'addErrback', 'addBoth', 'callback',
+                                    'errback') and \
+                isinstance(n.func.value, ast.Name):
+            deferredish.add(n.func.value.id)
+    if not deferredish:
+        return []
+    filed = {}      # container attr -> line
+    for n in nodes:
+        if isinstance(n, ast.Assign) and isinstance(n.value, ast.Name) and \
+                n.value.id in deferredish:
+            for t in n.targets:
+                if isinstance(t, ast.Subscript) and \
+                        isinstance(t.value, ast.Attribute) and \
+                        isinstance(t.value.value, ast.Name) and \
+                        t.value.value.id == 'self':
+                    filed[t.value.attr] = n.lineno
+    if not filed:
+        return []
+    returned = {n.value.id for n in nodes if isinstance(n, ast.Return) and
+                isinstance(n.value, ast.Name)}
+    if not (returned & deferredish):
+        return []
+    out = []
+    for n in nodes:
+        if isinstance(n, ast.Assign) and len(n.targets) == 1 and \
+                isinstance(n.targets[0], ast.Name):
+            v = n.value
+            attr = None
+            if isinstance(v, ast.Call) and \
+                    isinstance(v.func, ast.Attribute) and \
+                    v.func.attr in ('get', 'pop') and \
+                    isinstance(v.func.value, ast.Attribute) and \
+                    isinstance(v.func.value.value, ast.Name) and \
+                    v.func.value.value.id == 'self':
+                attr = v.func.value.attr
+            elif isinstance(v, ast.Subscript) and \
+                    isinstance(v.value, ast.Attribute) and \
+                    isinstance(v.value.value, ast.Name) and \
+                    v.value.value.id == 'self':
+                attr = v.value.attr
+            if attr in filed and n.targets[0].id in returned:
+                out.append((n.lineno, 'shared-deferred:%s' % attr,
+                            'the Deferred filed in self.%s (line %d) is also '
+                            'returned to the caller, and a later call '
+                            'returns the SAME Deferred taken from there '
+                            '(line %d): both callers chain callbacks on one '
+                            'object, the second sees the first one\'s '
+                            'transformed result (hand out a fresh Deferred '
+                            'per caller)' % (attr, filed[attr], n.lineno)))
+    return out
+
+
 def scan_function(fn, shared=()):
     return search_loop_variable(fn) + stale_snapshot(fn) + \
         one_object_two_names(fn) + \
-        shallow_copy_of_shared_mutables(fn, shared)
+        shallow_copy_of_shared_mutables(fn, shared) + shared_deferred(fn)
 
 
 def pitfall_rules(ctx, pid):
@@ -310,6 +373,8 @@ def _control():
             'parse_rule': {'one-object-two-names'},
             'parse_from_template': {'shallow-copy-of-shared-mutables'},
             'parse_from_template_ok': set(),
+            'introspect_coalesced': {'shared-deferred'},
+            'introspect_fanout': set(),
             'pick_guarded': set(), 'pick_else': set(), 'frame_fresh': set(),
             'parse_rule_ok': set()}
     bad = {k: (got.get(k), v) for k, v in want.items() if got.get(k) != v}
